@@ -115,14 +115,41 @@ def el(k, n, completion=False):
     return g.M('/%07d' % k, args)
 
 
+def wrap(k, n, kind, completion=False):
+    """element number k of KIND: 'm' a plain message; 'b' a nested bundle (own latency) with one message; 'B' a nested
+    bundle with three messages; 'n' a nested bundle holding a nested bundle and a message.  Every message inside
+    carries the element id in its address; nested latencies (4 s, 8 s) are above every outer latency used."""
+    if kind == 'm':
+        return el(k, n, completion)
+    if kind == 'b':
+        return g.Bn(g.Lat(4), [el(k, n, completion)])
+    if kind == 'B':
+        return g.Bn(g.Lat(4), [el(k, n, completion), el(k, 0), el(k, 1)])
+    if kind == 'n':
+        return g.Bn(g.Lat(4), [g.Bn(g.Lat(8), [el(k, n, completion)]), el(k, 0)])
+    raise AssertionError(kind)
+
+
 def clump_cases(rnd, nrand):
     cs = []
 
-    def add(site, blobs, lat, src, completion=False):
+    def add(site, blobs, lat, src, completion=False, kinds='m'):
         cs.append(dict(kind='clump', site=site, lat=lat, src=src,
-                       els=[el(i + 1, n, completion and i % 2 == 0) for i, n in enumerate(blobs)]))
+                       els=[wrap(i + 1, n, kinds[i % len(kinds)], completion and i % 2 == 0) for i, n in enumerate(blobs)]))
     for site in ('clumped', 'sync'):
         add(site, [600] * 110, 0.2, 'directed')                  # DESIGN 4 row 8
+        # element KINDS: nested bundles only, nested in nested only, mixed sequences; many small ones, few big ones
+        add(site, [80] * 700, 0.2, 'directed', kinds='b')
+        add(site, [60] * 500, None, 'directed', kinds='n')
+        add(site, [600] * 110, 0.0, 'directed', kinds='mbBn')
+        add(site, [30000, 30000, 30001], 0.5, 'directed', kinds='bnm')
+        add(site, [0] * 6, None, 'directed', kinds='bBn')
+        for n in range(600, 616, 2):
+            add(site, [n] * 99, None, 'sweep', kinds='b')
+            add(site, [n] * 99, 0.2, 'sweep', kinds='Bmn', completion=True)
+        for b in range(65280, 65400, 4):       # whole-bundle sizes around both "needs splitting" decisions, per kind
+            add(site, [b, 0, 0, 0], None, 'sweep', kinds='bmmm')
+            add(site, [0, b + 1, 0], 0.2, 'sweep', kinds='mnb')
         add(site, [590] * 110, 0.2, 'directed', completion=True)  # elements with completion messages
         for n in range(620, 628):
             add(site, [n] * 99, None, 'sweep', completion=True)
@@ -155,7 +182,8 @@ def clump_cases(rnd, nrand):
             n = rnd.randint(50, 300)
             per = (LIMIT + rnd.randint(-400, 400)) // n - 24
             blobs = [max(0, per + rnd.randint(-3, 3)) for _ in range(n)]
-        add(site, blobs, rnd.choice([None, 0.0, 0.2]), 'random', completion=rnd.random() < 0.3)
+        kinds = rnd.choice(['m', 'm', 'b', 'n', 'mb', 'mbBn', 'Bm', ''.join(rnd.choice('mbBn') for _ in range(7))])
+        add(site, blobs, rnd.choice([None, 0.0, 0.2]), 'random', completion=rnd.random() < 0.3, kinds=kinds)
     return cs
 
 
@@ -259,7 +287,7 @@ def judge(ctx, cases, traces):
         accepted = t['out'].get('k', 'ok') == 'ok'
         f = case_features(c)
         if accepted and (len(f) >= 4 or c['kind'] in ('clump', 'dsend')):
-            ctx.nontrivial(dict(kind=c['kind'], v=c.get('v'), els=[e['args'] for e in c.get('els', [])], n=c.get('n'), site=c.get('site')))
+            ctx.nontrivial(dict(kind=c['kind'], v=c.get('v'), els=c.get('els'), n=c.get('n'), site=c.get('site'), cm=c.get('cm')))
         if not accepted and c['kind'] in ('enc', 'size') and not (f & set(g.BAD)) and 'array-marker' not in f \
                 and 'bundle-in-bundle' not in f and 'unsupported' not in f:
             ctx.note_drift('refused although representable: %s (%s)' % (json.dumps(c['v'])[:200], t['out'].get('exc')))
@@ -286,7 +314,11 @@ def describe(c, t):
         return '%s -> %s pred=%s' % (py[:160], {k: w for k, w in t['out'].items() if k in ('k', 'len', 'exc')} or '',
                                       t.get('pred', {}).get('n'))
     if c['kind'] == 'clump':
-        blobs = [(e['args'][0]['z'] if e['args'] and 'z' in e['args'][0] else 0) for e in c['els']]
+        def first(e):
+            while e['t'] == 'B':
+                e = e['el'][0]
+            return e['args'][0]['z'] if e['args'] and 'z' in e['args'][0] else 0
+        blobs = ['%s%d' % ({'m': '', 'B': 'bundle:'}[e['t']], first(e)) for e in c['els']]
         return '%s of %d elements (blob sizes %s...) -> datagram lengths %s' % (
             c['site'], len(blobs), blobs[:4], [d['len'] for d in t['out'].get('dgrams', [])][:8])
     cm = c['cm']
@@ -301,7 +333,7 @@ def run(ctx):
     r = ctx.model_check('OscModel', 'OscModel%s.cfg' % sfx, require_cover=('AddArg', 'AddElem', 'NestInMsg', 'NestInBundle'),
                         timeout=1500)
     ctx.expect_ok(r, 'OscModel (RoundTrip, Aligned, LenAgrees, PredNotBelow)')
-    r = ctx.model_check('OscClump', 'OscClump%s.cfg' % sfx, require_cover=('Feed',), timeout=1500)
+    r = ctx.model_check('OscClump', 'OscClump%s.cfg' % sfx, require_cover=('FeedMsg', 'FeedBundle', 'FeedNested'), timeout=1500)
     ctx.expect_ok(r, 'OscClump (accumulator loop refines the splitter law)')
     r = ctx.model_check('OscDsend', 'OscDsend.cfg', require_cover=('PickRecv', 'PickLoad', 'PickRaise'), timeout=300)
     ctx.expect_ok(r, 'OscDsend (the /d_recv vs /d_load choice made on the resolved completion message is safe and flips)')
@@ -329,7 +361,8 @@ def run(ctx):
     ctx.cov['rule'] = ('every value of the OscModel pool printed by TLC (messages with <= %d args from a 44-value pool, '
                        'bundles, extra nesting) + directed values per input class + seeded random messages/bundles '
                        '(<= 40 args, nesting <= 4, 35%% with unrepresentable atoms) + large values (lengths only) + bundles '
-                       'through send_clumped_bundles/sync (directed, sweeps over blob residues and thresholds, random) + '
+                       'through send_clumped_bundles/sync (elements of every kind: messages, nested bundles, nested-in-nested, mixed; directed, '
+                       'sweeps over blob residues and thresholds, random) + '
                        'SynthDef._do_send/send/add/store with every completion form (None, list, bundle, function of the server) swept over the limit; non-trivial = accepted and combining >= 4 input classes, or '
                        'a clump/dsend case; distinct by content' % (2 if thorough else 1))
     ctx.cov['exhaustive'] = False
